@@ -99,6 +99,8 @@ class C07(Prop):
                 if not tor:
                     s["pkg"] = "py"
                 yield s
+        for s in self._wide():
+            yield s
         from .c03 import group_elements
         for bi, (n, m, e) in enumerate(self.big):
             rows = ins_to_state(m)
@@ -117,6 +119,38 @@ class C07(Prop):
                 if n2 == n:
                     yield {"k": "overlap", "rows": rows, "r": r, "other": {"rows": ins_to_state(m2), "r": rng.randrange(n + 1)}}
                 yield {"k": "prob", "rows": rows, "r": r, "bits": bits if n <= 3 else bits[::3]}
+
+    def _wide(self):
+        """a wide register (N = 36) in a highly mixed product state: only the last 3 qubits carry (signed) stabilizers,
+        so the stabilizer group has 8 elements and TLC can still decide every expectation value"""
+        rng = self.rng
+        n = 36
+        m = []
+        for q in range(n):
+            m1 = rng.choice(self.maps[1])
+            for row in m1:
+                w = [0] * n + [row[-1]]
+                w[q] = row[0]
+                m.append(w)
+        rows = ins_to_state(m)
+        r = n - 3
+        act = rows[r:n]
+        terms = [{"p": [0] * n + [rng.randrange(4)], "c": [3, -1]}]
+        for a in act:
+            terms.append({"p": a[:-1] + [(a[-1] + rng.randrange(4)) % 4], "c": [rng.randrange(1, 4), rng.randrange(-2, 3)]})
+        # product of two stabilizers (letters are on different qubits, so the string is the union; the sign is the
+        # product of the two signs) and a few strings outside the group
+        two = [max(x, y) for x, y in zip(act[0][:-1], act[1][:-1])] + [(act[0][-1] + act[1][-1]) % 4]
+        terms.append({"p": two, "c": [2, 1]})
+        for _ in range(4):
+            w = [0] * n + [rng.randrange(4)]
+            w[rng.randrange(30, n)] = rng.randrange(1, 4)
+            w[rng.randrange(0, 5)] = rng.randrange(0, 4)
+            terms.append({"p": w, "c": [1, 1]})
+        obs = [t["p"][:-1] + [rng.choice((0, 2))] for t in terms]
+        yield {"k": "expect", "rows": rows, "r": r, "obs": obs, "pkg": "py"}
+        yield {"k": "expect_poly", "kind": "poly", "rows": rows, "r": r, "terms": terms, "e": 1, "pkg": "py"}
+        yield {"k": "expect_poly", "kind": "poly", "rows": rows, "r": r, "terms": terms[:5], "e": 0, "pkg": "torch"}
 
     def execute(self, scn, be):
         k = scn["k"]
